@@ -177,15 +177,27 @@ def run(chk):
     other = [t for bb, t in pht.calls() if names.call_is(t, "u32::from_be_bytes", "u32::from_le_bytes")]
     chk.ob("R3 constants agree", "R3|PacketHeader::try_from|channel", k_p == [4] and len(ne) == 1 and not other, where(pht), "carves %s bytes for the channel, decoded with from_ne_bytes (encoder: to_ne_bytes)" % k_p)
     Tp = flow.Terms(p, pht)
+    # dispatch on bit 7: on the edge asserting (byte & 0x80) == 0x80 the initialisation header is parsed, on the other edge
+    # the continuation header — whichever way the comparison is spelled (==, !=, operands swapped, arms swapped)
     disc = False
+    is_bit = lambda y: isinstance(y, tuple) and len(y) == 2 and y[0] == "const" and (y[1] == 128 or str(y[1]).endswith("PACKET_DISCRIPTOR_BIT"))
     for sb in range(len(pht.blocks)):
         t = pht.term(sb)
-        if t and t["k"] == "switch":
+        if t and t["k"] == "switch" and not pht.blocks[sb]["cleanup"]:
             c = flow.simplify_term(Tp.operand(t["op"], sb, "t"))
-            if c[0] == "binop" and c[1] == "Eq" and has(c, lambda y: isinstance(y, tuple) and y and y[0] == "binop" and y[1] == "BitAnd") and has(c, lambda y: isinstance(y, tuple) and len(y) == 2 and y[0] == "const" and (y[1] == 128 or str(y[1]).endswith("PACKET_DISCRIPTOR_BIT"))):
-                e = flow.switch_edges(pht, sb)
-                init_side = pht.reachable(e.get("otherwise"), follow_yield_drop=False)
-                cont_side = pht.reachable(e.get("0"), follow_yield_drop=False)
+            init_e, cont_e = [], []
+            for sc in sorted(set(pht.succs(sb))):
+                e = flow.eq_test(c, flow.edge_label(pht, sb, sc))
+                if e is None or len(e[0]) != 2:
+                    continue
+                a, b = tuple(e[0])
+                masked = [x for x in (a, b) if isinstance(x, tuple) and x and x[0] == "binop" and x[1] == "BitAnd" and has(x, is_bit)]
+                lit = [x for x in (a, b) if is_bit(x)]
+                if masked and lit:
+                    (init_e if e[1] else cont_e).append(sc)
+            if init_e and cont_e:
+                init_side = set().union(*(pht.reachable(x, follow_yield_drop=False) for x in init_e))
+                cont_side = set().union(*(pht.reachable(x, follow_yield_drop=False) for x in cont_e))
                 ci = [bb for bb, t2 in pht.calls() if names.call_is(t2, "InitHeader::try_from")]
                 cc = [bb for bb, t2 in pht.calls() if names.call_is(t2, "ContHeader::from")]
                 disc = bool(ci and cc) and ci[0] in init_side and cc[0] in cont_side and ci[0] not in cont_side and cc[0] not in init_side
@@ -219,7 +231,9 @@ def run(chk):
     # mapped through a closure or walked by a `for` loop
     seq_ok = False
     src = None
-    for nb in p.nested(tpk.path):
+    from . import inline
+    for nb0 in p.nested(tpk.path):
+        nb = tpk if nb0 is tpk else inline.inlined(p, nb0)
         for bb, i, rv in find_aggs(nb, "ContHeader"):
             Tn = flow.Terms(p, nb)
             sv = N.norm(Tn.operand(rv["ops"][rv["fields"].index("seq")], bb, i))
@@ -229,11 +243,11 @@ def run(chk):
             if not (isinstance(x, tuple) and len(x) == 3 and x[0] == "field" and x[2] == "0"):
                 continue
             elem = x[1]
-            if nb is not tpk and elem == ("param", 2):
+            if nb0 is not tpk and elem == ("param", 2):
                 # closure argument: the closure must be mapped over the enumerated chunks
                 for mb, mt in names.calls_to(tpk, "Iterator::map"):
                     clo = flow.simplify_term(Tt.operand(mt["args"][1], mb, "t"))
-                    if clo[0] == "closure" and clo[1] == nb.path:
+                    if clo[0] == "closure" and clo[1] == nb0.path:
                         src = N.norm(Tt.operand(mt["args"][0], mb, "t"))
             elif flow.payload_subject(elem) is not None and is_call(flow.payload_subject(elem), "Iterator::next"):
                 src = flow.iterator_source(flow.payload_subject(elem)[2][0])
@@ -245,7 +259,7 @@ def run(chk):
     if ck:
         ivt = intervals.Intervals(p, tpk)
         n = ivt.iv_operand(ivt.at(ck[0][0], "t"), ck[0][1]["args"][1]).exact()
-        fst = [flow.simplify_term(Tt.operand(t["args"][1], bb, "t")) for bb, t in tpk.calls() if names.call_is(t, "Index::index")]
+        fst = [flow.simplify_term(Tt.operand(t["args"][1], bb, "t")) for bb, t in tpk.calls() if names.call_is(t, "Index::index", "slice::split_at", "slice::split_at_checked")]
         chk.ob("R4 sequence discipline", "R4|sender-chunk-sizes", n == 59 and any(has(x, lambda y: y == ("const", 57)) for x in fst), where(tpk, ck[0][0]), "continuation chunks of %s bytes after the first 57" % n)
     o_ini = S.local_outcomes(ini)
     ok = len(o_ini) == 1 and o_ini[0].value[0] == "agg" and dict(o_ini[0].value[3]).get("sequence") == ("const", 0)
@@ -277,18 +291,22 @@ def run(chk):
         d = flow.DefUse(snd).trace_copy(a[0]) if a else []
         okw = any(snd.local_ty(l) == "[u8; 64]" for l in d)
     chk.ob("R5 full packets", "R5|send|writes-the-64-byte-buffer", okw, where(snd, wr[0][0]) if wr else where(snd), "the only Write::write argument is the [u8; 64] packet buffer: %s" % okw)
-    zero = False
-    for nb in p.nested(snd.path):
-        if nb is snd:
-            continue
-        for bb, s in nb.stmts():
-            if s["k"] == "assign" and s["rv"]["k"] == "use" and s["rv"]["op"]["k"] == "const" and flow.const_bits(s["rv"]["op"]) == 0 and any(e["k"] == "deref" for e in s["place"]["p"]):
-                zero = True
+    # the tail of the buffer is zeroed — iter_mut().for_each(|b| *b = 0) or fill(0) — on the edge `index == last`, before encode
+    zero_sites = []
+    for bb, t in snd.calls():
+        if names.call_is(t, "slice::fill") and flow.const_bits(t["args"][1]) == 0:
+            zero_sites.append(bb)
+        if names.call_is(t, "Iterator::for_each"):
+            clo = flow.simplify_term(Ts.operand(t["args"][1], bb, "t"))
+            cb2 = p.bodies.get(clo[1]) if clo and clo[0] == "closure" else None
+            if cb2 is not None and any(s["k"] == "assign" and s["rv"]["k"] == "use" and s["rv"]["op"]["k"] == "const" and flow.const_bits(s["rv"]["op"]) == 0 and any(e["k"] == "deref" for e in s["place"]["p"]) for b3, s in cb2.stmts()):
+                zero_sites.append(bb)
+    zero = bool(zero_sites)
     enc = [bb for bb, t in snd.calls() if names.call_is(t, "PacketHeader::encode")]
-    fe = [bb for bb, t in snd.calls() if names.call_is(t, "Iterator::for_each")]
+    fe = zero_sites
     order = bool(enc and fe) and enc[0] in snd.reachable(fe[0], follow_yield_drop=False)
     conds = flow.conditions(p, snd, fe[0], Ts) if fe else []
-    last = any(t[0] == "binop" and t[1] == "Eq" and flow.lab_true(l) for sb, l, t in conds)
+    last = any((flow.eq_test(t, l) or (None, None))[1] is True for sb, l, t in conds)
     chk.ob("R5 full packets", "R5|send|tail-zeroed-on-last-packet-before-encode", zero and order and last, where(snd, fe[0]) if fe else where(snd), "zeroing closure: %s, guarded by i == last: %s, before encode: %s" % (zero, last, order))
 
     # ---------------- R6
